@@ -57,7 +57,7 @@ def run_one(m, tests, tier, jobs):
             p = subprocess.run([os.path.join(VERIF, 'check'), prop, tier], env=env2,
                                capture_output=True, text=True, cwd=VERIF)
             lines = [l for l in p.stdout.splitlines() if l.startswith(('VIOLATION', '  key='))]
-            res['checks'][prop] = {'rc': p.returncode, 'caught': p.returncode == 1,
+            res['checks'][prop] = {'rc': p.returncode, 'caught': p.returncode == 1 and any(l.startswith('VIOLATION property=') for l in p.stdout.splitlines()),
                                    'lines': lines[:4]}
             if p.returncode not in (0, 1):
                 res['checks'][prop]['tail'] = p.stdout.strip().splitlines()[-4:]
